@@ -292,12 +292,12 @@ inline Bytes rdata_txt(const std::string &s)
   b.insert(b.end(), s.begin(), s.end());
   return b;
 }
-inline Bytes rdata_soa(uint32_t minimum)
+inline Bytes rdata_soa(uint32_t minimum, uint32_t serial = 1)
 {
   W w;
   w.name(labels_of("ns.example"));
   w.name(labels_of("hostmaster.example"));
-  w.u32(1);
+  w.u32(serial);
   w.u32(3600);
   w.u32(600);
   w.u32(86400);
